@@ -646,9 +646,15 @@ class X:
                 raise Unsupported(f'attribute store on {type(obj).__name__}')
         elif isinstance(target, ast.Subscript):
             if isinstance(target.slice, ast.Slice):
-                if not self.contract.setslice_hook(self, target, val):
-                    raise Unsupported('slice assignment')
-                return
+                if self.contract.setslice_hook(self, target, val):
+                    return
+                sl = target.slice
+                if sl.lower is None and sl.upper is None and sl.step is None:
+                    obj = self.eval(target.value)
+                    if isinstance(obj, VList) and isinstance(val, (VList, VTuple)):
+                        obj.items[:] = list(val.items)   # in place: every alias of the list sees the new content
+                        return
+                raise Unsupported('slice assignment')
             obj = self.eval(target.value)
             key = self.eval(target.slice)
             self.setitem(obj, key, val)
@@ -974,7 +980,16 @@ class X:
         return VTuple([self.eval(i) for i in e.elts])
 
     def ex_List(self, e):
-        return VList([self.eval(i) for i in e.elts])
+        items = []
+        for i in e.elts:
+            if isinstance(i, ast.Starred):
+                sv = self.eval(i.value)
+                if not isinstance(sv, (VTuple, VList)):
+                    raise Unsupported('starred element of unknown length in a list display')
+                items.extend(sv.items)
+            else:
+                items.append(self.eval(i))
+        return VList(items)
 
     def ex_JoinedStr(self, e):
         # f-string: concatenation of constants and str() of plain {expr} fields; anything with a conversion or a
@@ -1096,6 +1111,9 @@ class X:
                 return t if isinstance(op, ast.Is) else z3.Not(t)
             if isinstance(a, VFunc) and isinstance(b, VFunc):
                 return z3.BoolVal((a.name == b.name) == isinstance(op, ast.Is))
+            if isinstance(a, (VList, VObj)) and isinstance(b, (VList, VObj)):
+                # mutable model objects: python identity of the model object is the identity of the modelled object
+                return z3.BoolVal(isinstance(op, ast.IsNot))
             raise Unsupported('identity comparison')
         if isinstance(op, (ast.In, ast.NotIn)):
             t = self.contains(b, a)
@@ -1224,6 +1242,12 @@ class X:
             obj.val = z3.Store(obj.val, k, obj.vunwrap(val))
             return
         if self.contract.setitem_hook(self, obj, key, val):
+            return
+        if isinstance(obj, VList) and isinstance(key, VInt) and z3.is_int_value(simp(key.t)):
+            i = simp(key.t).as_long()
+            if not -len(obj.items) <= i < len(obj.items):
+                self.raise_(IndexError, 'index')
+            obj.items[i] = val
             return
         raise Unsupported(f'item store on {type(obj).__name__}')
 
